@@ -1131,6 +1131,32 @@ def c06_r1(ctx):
         pass
 
 
+@rule("C06.R4", floor=0)
+def c06_r4(ctx):
+    """Rule threads create nothing on a test-then-create basis: in code reachable from a rule
+    thread, a `create_dir` (or `create_file`) on the false edge of an `is_dir` / `is_file` test of
+    the same path is a race between sibling threads whose targets share that directory - both see
+    it missing, the second creation fails (or, on the in-memory system, replaces the directory the
+    first one has meanwhile filled).  The pinned tree has no such site (directories are made by
+    the commands, or by the main thread before any rule thread starts)."""
+    R = Roles(ctx.P)
+    thread_reach = set()
+    for (pf, cs, cl) in R.spawns():
+        thread_reach |= ctx.P.reachable_fns([cl.id])
+    for fid in sorted(thread_reach):
+        f = ctx.P.fns[fid]
+        if f.body.get("in_test") or is_real_system(f) or f.body["span"]["file"].endswith("system/fake.rs"):
+            continue
+        for c in sys_calls(f, "create_dir", "create_file"):
+            po = f.origins_of_operand(c.args[1])
+            tests = [g for g in sys_calls(f, "is_dir", "is_file") if f.origins_of_operand(g.args[1]) == po]
+            for g in tests:
+                if f.dominated_by_edges(c.bb, f.bool_edges_of_call(g, False)):
+                    ctx.inst("test-then-create in %s" % fid, c.where)
+                    ctx.viol((fid, "test-then-create", c.name), "%s follows an `%s` test of the same path in code run by the rule threads: two rules whose targets share that directory can both find it missing, and the outcome of the build then depends on which thread creates it second" % (c.name, g.name), c.where)
+    ctx.ok()
+
+
 @rule("C06.R3", floor=1)
 def c06_r3(ctx):
     """No check-then-act on the contended cache directory: a mutating call on a cache entry
